@@ -87,6 +87,10 @@ pub struct Outcome {
     pub tokens: Vec<Tok>,
     pub trace: Vec<Attempt>,
     pub mentions: Vec<Mention>,
+    /// Every attempt to match stack contents (PEEK, POP, PEEK_ALL, POP_ALL, slices): where it was
+    /// tried and the text that would have matched there. The workload generator uses it to build
+    /// inputs that a correct implementation accepts at exactly these points ("repair").
+    pub stack_probes: Vec<(usize, String)>,
     /// Structure events of the entry rule's own expression in derivation order (see DESIGN 6/C17).
     pub events: Vec<String>,
     pub steps: u64,
@@ -277,6 +281,13 @@ impl<'g> M<'g> {
         }
     }
 
+    fn probe(&mut self, pos: usize, entries: &[(usize, usize)]) {
+        if self.opts.record_trace && self.out.stack_probes.len() < 64 {
+            let text: String = entries.iter().map(|e| &self.text[e.0..e.1]).collect();
+            self.out.stack_probes.push((pos, text));
+        }
+    }
+
     fn rec(&self) -> bool {
         self.depth == 1 && self.neg == 0
     }
@@ -395,7 +406,10 @@ impl<'g> M<'g> {
                 ok.then_some(pos)
             }
             "PEEK" => match self.stk.peek() {
-                Some(e) => self.match_span(pos, e),
+                Some(e) => {
+                    self.probe(pos, &[e]);
+                    self.match_span(pos, e)
+                }
                 None => {
                     self.out.empty_stack_ops += 1;
                     None
@@ -404,6 +418,7 @@ impl<'g> M<'g> {
             "POP" => match self.opts.discipline {
                 Discipline::Full => match self.stk.peek() {
                     Some(e) => {
+                        self.probe(pos, &[e]);
                         let r = self.match_span(pos, e);
                         if r.is_some() {
                             self.stk.pop();
@@ -432,6 +447,8 @@ impl<'g> M<'g> {
             },
             "PEEK_ALL" | "POP_ALL" => {
                 let entries = self.stk.dump();
+                let rev: Vec<(usize, usize)> = entries.iter().rev().copied().collect();
+                self.probe(pos, &rev);
                 let mut p = Some(pos);
                 for e in entries.iter().rev() {
                     p = p.and_then(|p| self.match_span(p, *e));
@@ -605,6 +622,7 @@ impl<'g> M<'g> {
                     return Ok(Some(pos));
                 }
                 let entries = self.stk.dump();
+                self.probe(pos, &entries[range.clone()]);
                 let mut p = Some(pos);
                 for e in &entries[range] {
                     p = p.and_then(|p| self.match_span(p, *e));
